@@ -286,3 +286,28 @@ impl<'a> IntoStr for &'a str { open spec fn str_view(&self) -> Seq<char> { self@
 pub fn coin<S: IntoStr>(amount: u128, denom: S) -> (r: Coin)
     ensures r.amount.u == amount, r.denom@ == denom.str_view()
 { unimplemented!() }
+
+// ---- staking query responses (cosmwasm_std::{Delegation, FullDelegation, DelegationResponse, ...}): plain records
+pub struct Delegation { pub delegator: Addr, pub validator: String, pub amount: Coin }
+impl Delegation { pub fn new(delegator: Addr, validator: String, amount: Coin) -> (r: Self) ensures r == (Delegation { delegator, validator, amount }) { Delegation { delegator, validator, amount } } }
+pub struct FullDelegation { pub delegator: Addr, pub validator: String, pub amount: Coin, pub can_redelegate: Coin, pub accumulated_rewards: Vec<Coin> }
+impl FullDelegation {
+    pub fn new(delegator: Addr, validator: String, amount: Coin, can_redelegate: Coin, accumulated_rewards: Vec<Coin>) -> (r: Self)
+        ensures r == (FullDelegation { delegator, validator, amount, can_redelegate, accumulated_rewards })
+    { FullDelegation { delegator, validator, amount, can_redelegate, accumulated_rewards } }
+}
+pub struct DelegationResponse { pub delegation: Option<FullDelegation> }
+impl DelegationResponse { pub fn new(delegation: Option<FullDelegation>) -> (r: Self) ensures r.delegation == delegation { DelegationResponse { delegation } } }
+pub struct AllDelegationsResponse { pub delegations: Vec<Delegation> }
+impl AllDelegationsResponse { pub fn new(delegations: Vec<Delegation>) -> (r: Self) ensures r.delegations == delegations { AllDelegationsResponse { delegations } } }
+pub struct BondedDenomResponse { pub denom: String }
+impl BondedDenomResponse { pub fn new(denom: String) -> (r: Self) ensures r.denom == denom { BondedDenomResponse { denom } } }
+pub struct AllValidatorsResponse { pub validators: Vec<Validator> }
+impl AllValidatorsResponse { pub fn new(validators: Vec<Validator>) -> (r: Self) ensures r.validators == validators { AllValidatorsResponse { validators } } }
+pub struct ValidatorResponse { pub validator: Option<Validator> }
+impl ValidatorResponse { pub fn new(validator: Option<Validator>) -> (r: Self) ensures r.validator == validator { ValidatorResponse { validator } } }
+impl Serialize for DelegationResponse {}
+impl Serialize for AllDelegationsResponse {}
+impl Serialize for BondedDenomResponse {}
+impl Serialize for AllValidatorsResponse {}
+impl Serialize for ValidatorResponse {}
